@@ -16,6 +16,8 @@
      l_len     byte length of the segment (MAX_RECORD_SIZE gate, len(line)==0 tests)
      l_act     what the segment is when read as an action line
      l_idx     the action's _index (a number standing for the index name; 0 = none)
+     l_safe    utils.IsSafePathComponent(_index): non-empty, not "." / "..", no '/', '\\', NUL
+               (a missing _index reads as the empty name)
      l_parses  writer.GetNewPLE succeeds on the segment read as a document line
      l_id      identity of the segment read as a document (key of the stored set) *)
 From SigM Require Import Base.
@@ -26,9 +28,9 @@ Definition MAX_RECORD_SIZE : N := 63000.        (* segment/utils/segconsts.go:75
 Inductive akind := KIndex | KCreate | KUpdate | KDelete | KUnknown | KBadJson.
 
 Record line := mkLine {
-  l_len : N; l_act : akind; l_idx : N; l_parses : bool; l_id : N }.
+  l_len : N; l_act : akind; l_idx : N; l_safe : bool; l_parses : bool; l_id : N }.
 
-Definition empty_line : line := mkLine 0 KBadJson 0 false 0.
+Definition empty_line : line := mkLine 0 KBadJson 0 true false 0.
 
 (* ExtractIndexAndValidateAction (l.287-330): "index"/"create"/"update" whose value is
    an object; everything else (delete, unknown verbs, non-object, not JSON, empty
@@ -118,6 +120,8 @@ Fixpoint loop (b : list line) (s : st) : st :=
       | d :: rem' =>
         if (l_len d =? 0) && buf_empty rem'          (* "expected another line" *)
         then loop rem' (emit (set_success false s0))
+        else if negb (l_safe a)                      (* "invalid index name": AFTER the document line was read *)
+        then loop rem' (emit (set_success false s0))
         else loop rem' (emit (write_doc (l_idx a) d s0))
       end
     | UPDATE =>
@@ -188,9 +192,10 @@ Definition doc_ok (d : line) : bool :=
 
 (* the action is a well-formed write: it must be acknowledged as created and stored *)
 Definition act_ok (a : action) : bool :=
-  match a with AWrite _ (Some d) => doc_ok d | _ => false end.
+  match a with AWrite l (Some d) => l_safe l && doc_ok d | _ => false end.
+(* an unusable index name is reported before the size of the document is looked at *)
 Definition act_oversize (a : action) : bool :=
-  match a with AWrite _ (Some d) => MAX_RECORD_SIZE <=? l_len d | _ => false end.
+  match a with AWrite l (Some d) => l_safe l && (MAX_RECORD_SIZE <=? l_len d) | _ => false end.
 Definition act_doc (a : action) : list (N * N) :=
   match a with AWrite l (Some d) => [(l_idx l, l_id d)] | _ => [] end.
 Definition act_index (a : action) : N :=
@@ -210,6 +215,7 @@ Definition created (st : N) : bool := st =? 201.
 Definition key_eqb (p q : N * N) : bool := (fst p =? fst q) && (snd p =? snd q).
 
 (* ================= the code BEFORE the fix (documentation only) =================
+   (it also predates the index-name check, which the witnesses do not involve)
    l.160-258 of the pre-fix file: the loop broke as soon as nothing followed the
    action line (before inCount++), maxRecordSizeExceeded was never reset, and the
    413 branch did not set overallError. *)
